@@ -146,6 +146,7 @@ pub fn run(ctx: &mut Ctx) {
         let cs: Vec<(Vec<Tok>, Formatter)> = pics.iter().map(|p| (tokenize(p.as_bytes()).unwrap(), Formatter::try_new(p).unwrap())).collect();
         let fday = Formatter::try_new("YYYY-MM-DD DAY").unwrap();
         let fd = Formatter::try_new("D YYYY-MM-DD").unwrap();
+        let fts = Formatter::try_new("YYYY-MM-DD HH24:MI:SS").unwrap();
         let mut c = cal.at(cal.min_day + range.start as i32);
         for idx in range {
             let f = Fields { year: c.y as i64, month: c.m, day: c.d, weekday: c.wd, doy: c.doy, ..Fields::default() };
@@ -154,6 +155,10 @@ pub fn run(ctx: &mut Ctx) {
                 let text = refmodel::picture::render(toks, Ty::Date, &f).unwrap();
                 parse_case(acc, idx, "canonical", Ty::Date, fmt, pics[k], &text, Some(c.n as i64));
             }
+            // the same date through the Timestamp and OracleDate conversions (each has its own validation)
+            let text = format!("{:04}-{:02}-{:02} 23:59:59", c.y, c.m, c.d);
+            parse_case(acc, idx, "canonical", Ty::Timestamp, &fts, "YYYY-MM-DD HH24:MI:SS", &text, Some(c.n as i64 * US_DAY + US_DAY - US_SEC));
+            parse_case(acc, idx, "canonical", Ty::OracleDate, &fts, "YYYY-MM-DD HH24:MI:SS", &text, Some(c.n as i64 * US_DAY + US_DAY - US_SEC));
             for wd in 1..=7u32 {
                 let exp = if wd == c.wd { Some(c.n as i64) } else { None };
                 let name = refmodel::tables::DAY_NAMES[wd as usize - 1];
@@ -423,7 +428,7 @@ pub fn run(ctx: &mut Ctx) {
         }
     }
     // left-over: every non-blank byte of the input alphabet appended to a canonical text that ends in a full-width numeric field
-    let alphabet: Vec<&str> = vec!["0", "1", "9", "+", "-", ":", ".", ",", "/", "\\", ";", "A", "a", "M", "p", "T", "J", "u", "x", "\u{e9}", "\u{7f}"];
+    let alphabet: Vec<&str> = vec!["0", "1", "9", "+", "-", ":", ".", ",", "/", "\\", ";", "A", "a", "M", "p", "T", "J", "u", "x", "\u{e9}", "\u{7f}", "\u{0}", "\u{1}", "\u{7}", "\u{8}", "\u{1b}", "\u{1f}", "\u{a0}"];
     for a in &alphabet {
         rej.push((Ty::Date, "YYYY-MM-DD".into(), format!("2023-01-15{a}"), "left-over-byte"));
         rej.push((Ty::Time, "HH24:MI:SS".into(), format!("10:20:30{a}"), "left-over-byte"));
